@@ -66,13 +66,13 @@ func VH07a_history() {
 	rtag := byte(100)
 	seq := 0
 	for e := 0; e < E; e++ {
-		ev := verif.Choice("ev", 5)
+		ev := verif.Choice("ev", 6)
 		if e == 0 {
 			verif.Assume(ev == 0)
 		}
 		switch ev {
 		case 0: // start a survey
-			s := cs[verif.Choice("ctx", 2)]
+			s := cs[verif.Choice("ctx", len(cs))]
 			if s.closed {
 				verif.Assume(false)
 			}
@@ -101,7 +101,7 @@ func VH07a_history() {
 			s.cur, s.active, s.ever, s.start, s.seq, s.queue = id, true, true, verif.Now(), seq, nil
 			verif.Reach("surveyed")
 		case 1: // Recv
-			s := cs[verif.Choice("ctx", 2)]
+			s := cs[verif.Choice("ctx", len(cs))]
 			if s.rg != nil {
 				verif.Assume(false)
 			}
@@ -138,7 +138,7 @@ func VH07a_history() {
 				}
 			}
 		case 3: // the survey of a context expires
-			s := cs[verif.Choice("ctx", 2)]
+			s := cs[verif.Choice("ctx", len(cs))]
 			if !s.active {
 				verif.Assume(false)
 			}
@@ -154,6 +154,18 @@ func VH07a_history() {
 			s.active = false
 			s.queue = nil
 			verif.Reach("expired")
+		case 5: // a further context is opened in the middle of things: no survey of its own yet
+			if len(cs) >= 3 {
+				verif.Assume(false)
+			}
+			cn, oerr := sock.OpenContext()
+			verif.Assert(oerr == nil, lab+"/open-context-later")
+			if oerr != nil {
+				return
+			}
+			verif.Assert(cn.SetOption(mangos.OptionSurveyTime, T) == nil, lab+"/set-survey-time-late-ctx")
+			cs = append(cs, &sv{name: "late-ctx", c: cn})
+			verif.Reach("late-context")
 		case 4: // close the extra context
 			s := cs[1]
 			if s.closed {
